@@ -103,6 +103,7 @@ type Conn struct {
 	readBuf        *bytes.Buffer
 	readLock       sync.Mutex
 	readReady      chan struct{}
+	readClosed     bool
 	writeLock      sync.Mutex
 	readDeadline   time.Time
 	s              *xmpp.Session
@@ -272,8 +273,25 @@ func (c *Conn) Close() error {
 	if err != nil {
 		return err
 	}
-	close(c.readReady)
+	c.closeRead()
 	return respReadCloser.Close()
+}
+
+// closeRead ends the read side: the stream is removed from the handler, data
+// packets are refused from now on, and readers drain the buffer and then see
+// io.EOF.
+// readClosed and the closing of readReady are guarded by readLock so that
+// handlePayload never signals on a closed channel.
+func (c *Conn) closeRead() {
+	c.handler.rmStream(c.stanzaWriter.sid)
+
+	c.readLock.Lock()
+	defer c.readLock.Unlock()
+	if c.readClosed {
+		return
+	}
+	c.readClosed = true
+	close(c.readReady)
 }
 
 func (c *Conn) closeNoNotify(t xmlstream.Encoder) error {
@@ -281,8 +299,7 @@ func (c *Conn) closeNoNotify(t xmlstream.Encoder) error {
 		return nil
 	}
 	c.closed = true
-
-	c.handler.rmStream(c.stanzaWriter.sid)
+	defer c.closeRead()
 
 	// Flush any remaining data to be written.
 	err := c.flush(t)
@@ -290,7 +307,6 @@ func (c *Conn) closeNoNotify(t xmlstream.Encoder) error {
 		return err
 	}
 
-	close(c.readReady)
 	return c.closeFlushFunc()
 }
 
